@@ -281,10 +281,17 @@ class C02(GenCheck):
         qa, fa, oka, na = self.meaning(case, a)
         qb, fb, okb, nb = self.meaning(case, b)
         case["_negdiv"] = na or nb
-        if not (oka and okb and self.fits(case, a, 64) and self.fits(case, b, 64)):
+        def leftmost_small_const(x):
+            while x[0] not in ("c", "v", "r"):
+                x = x[1]
+            return x[0] == "c"          # an operation whose left-most operand is a constant is computed at the constant's (32-bit) width
+
+        narrow = any(l[0] == "v" and dsl.fmt_size(self.fmt_of(case, l[1])) <= 4 for l in exprs.leaves(a) + exprs.leaves(b)) \
+            or (a[0] not in ("c", "v", "r") and leftmost_small_const(a)) or (b[0] not in ("c", "v", "r") and leftmost_small_const(b))
+        W = 32 if narrow else 64
+        if not (oka and okb and self.fits(case, a, W) and self.fits(case, b, W)):
             return True
-        narrow = any(l[0] == "v" and dsl.fmt_size(self.fmt_of(case, l[1])) <= 4 for l in exprs.leaves(a) + exprs.leaves(b))
-        lim = 1 << (31 if narrow else 63)
+        lim = 1 << (W - 1)
         if not all(-lim <= v * FB < lim for v in (qa, qb)):
             return True
         if qa < 0 or qb < 0:
